@@ -10,6 +10,7 @@
     * a failing call leaves the process usable: the configuration is never lost (`step_config`).
 -/
 import UpdaterModel.Lemmas.Steps
+import UpdaterModel.Model.Panic
 
 namespace Updater
 
@@ -137,5 +138,83 @@ theorem C13_holds (env : Env) (libs : List (String × Bytes)) (ops : List Op) :
         obtain ⟨h1, h2, h3, h4, h5⟩ := hshow
         simp [postView, step, launchStart, launchSuccess, launchFailure, nextBootPatch, currentBootPatch,
           shouldAutoUpdate, check, update, hc, World.view, firstFail, h1, h2, h3, h4]
+
+
+/-! ### the panicking semantics -/
+
+/-- The translator's table of panicking expressions is exactly the table the model covers: a new
+    `unwrap` / `expect` / `panic!` / index / division in the production code, or a change of the guard
+    around a known one, is a new proof obligation. -/
+theorem sites_covered : Gen.panicSites = knownSites := rfl
+
+/-- `channel.unwrap()` is guarded by `channel.is_some()`. -/
+theorem applyChannel_ok (cfg : Config) (chan : Option String) : applyChannel cfg chan = .ok (withChannel cfg chan) := by
+  cases chan <;> rfl
+
+theorem joinPath_utf8 (p : ByteArray) (c : String) (h : p.IsValidUTF8) : (joinPath p c).IsValidUTF8 :=
+  (h.append "/".isValidUTF8).append c.isValidUTF8
+
+/-- The artifact path is valid UTF-8 for every storage directory (a `String`) and patch number. -/
+theorem artifactPath_utf8 (storage : String) (n : Nat) : (artifactPath storage n).IsValidUTF8 :=
+  joinPath_utf8 _ _ (joinPath_utf8 _ _ (joinPath_utf8 _ _ storage.isValidUTF8))
+
+/-- `v.to_str().unwrap()` in `path_to_c_string` never panics on an artifact path. -/
+theorem pathToCString_ok (storage : String) (n : Nat) :
+    ∃ s, pathToCString (some (artifactPath storage n)) = .ok (some s) := by
+  unfold pathToCString
+  simp only [String.fromUTF8?, artifactPath_utf8 storage n, dite_true]
+  exact ⟨_, rfl⟩
+
+/-- **No panic, one call.** With unpoisoned mutexes, every exported call — any operation, any
+    arguments, any stored state, any oracle answers, before or after initialisation — returns what
+    the panic-free model returns, and leaves the mutexes unpoisoned. -/
+theorem stepP_ok (env : Env) (w : World) (op : Op) :
+    stepP env {} w op = (.ok (step env w op), {}) := by
+  unfold stepP
+  have hl : acquireConfig {} op = .ok () := by
+    unfold acquireConfig; cases op.locksConfig <;> rfl
+  rw [hl]
+  simp only
+  cases op with
+  | update chan sc =>
+    simp only
+    cases hc : w.config with
+    | none => rfl
+    | some cfg => simp only [lockUpdater, applyChannel_ok]; rfl
+  | nextP =>
+    simp only
+    cases hc : w.config with
+    | none => rfl
+    | some cfg =>
+      cases hr : (step env w .nextP).2.1 with
+      | path p =>
+        cases p with
+        | none => rfl
+        | some n =>
+          obtain ⟨s, hs⟩ := pathToCString_ok cfg.storage n
+          simp only [hs]
+      | unit => rfl
+      | bool b => rfl
+      | num n => rfl
+      | upd o => rfl
+  | init p => rfl
+  | restart => rfl
+  | start => rfl
+  | success => rfl
+  | failure => rfl
+  | nextN => rfl
+  | curN => rfl
+  | auto => rfl
+  | check chan resp => rfl
+  | damage dm => rfl
+
+/-- **No panic, any history**, and a failing call never makes later calls unusable: the mutexes are
+    never poisoned, for arbitrary call orders and arbitrary inputs at every step. -/
+theorem never_panics (env : Env) (w : World) (ops : List Op) : runP env {} w ops = none := by
+  induction ops generalizing w with
+  | nil => rfl
+  | cons op ops ih =>
+    simp only [runP, stepP_ok]
+    exact ih _
 
 end Updater
